@@ -5,7 +5,7 @@
                                     (loop skeleton: which factor is written by whom)
    Definitions only.  Numerical content (least-squares solve, MTTKRP, the operators themselves, the
    stopping tests) is abstract: the property is about WHICH operator produced the returned factor. *)
-From Coq Require Import List Arith Bool Lia.
+From Coq Require Import List Arith Bool Lia ZArith.
 From TLV Require Import Base.PyList Base.Tensor.
 Import ListNotations.
 
@@ -118,17 +118,105 @@ Section Spec.
   (* the call site: the twelve keywords zipped with their names *)
   Definition keywords (f : kind -> spec) : list (kind * spec) := map (fun k => (k, f k)) all_kinds.
 
+  (* ------------------------------------------------------------------ dict keys as Python ints
+     The definitions above take dict keys as natural numbers.  The code accepts any int: the double-constraint
+     scan compares the RAW keys (`mode in modes_constrained`), the registration indexes a Python list
+     (`constraints[modes[i]] = name`), which wraps negative keys around.  The z* definitions model exactly that;
+     they are the definitions the correspondence executes.  For non-negative keys they coincide with the
+     definitions above (Proofs/ConstraintsProofsKeys.v). *)
+  Inductive zspec :=
+  | ZNone
+  | ZScalar (p : P)
+  | ZList (l : list (option P))
+  | ZDict (d : list (Z * P)).
+
+  (* Python list indexing `lst[key]` for a list of length n: the position, or IndexError *)
+  Definition resolve (n : nat) (key : Z) : option nat :=
+    if (0 <=? key)%Z then (if (key <? Z.of_nat n)%Z then Some (Z.to_nat key) else None)
+    else if (- Z.of_nat n <=? key)%Z then Some (Z.to_nat (key + Z.of_nat n)) else None.
+
+  Definition zspec_truthy (s : zspec) : bool :=
+    match s with
+    | ZNone => false
+    | ZScalar p => truthy p
+    | ZList l => negb (is_nil l)
+    | ZDict d => negb (is_nil d)
+    end.
+
+  Definition zkey (mp : nat * P) : Z * P := (Z.of_nat (fst mp), snd mp).
+
+  (* the (raw key, parameter) pairs one keyword addresses, in the order the code visits them *)
+  Definition zassigns (n : nat) (s : zspec) : list (Z * P) :=
+    if zspec_truthy s then
+      match s with
+      | ZNone => []
+      | ZScalar p => map (fun i => (Z.of_nat i, p)) (seq 0 n)
+      | ZList l => map zkey (list_assigns 0 l)
+      | ZDict d => d
+      end
+    else [].
+
+  Fixpoint zmemb (a : Z) (l : list Z) : bool :=
+    match l with [] => false | x :: r => Z.eqb x a || zmemb a r end.
+
+  Fixpoint zadd_all (seen : list Z) (ks : list Z) : res (list Z) :=
+    match ks with
+    | [] => Ok seen
+    | a :: r => if zmemb a seen then Err else zadd_all (a :: seen) r
+    end.
+
+  Definition zscan_one (n : nat) (seen : list Z) (s : zspec) : res (list Z) :=
+    if zspec_truthy s then
+      match s with
+      | ZScalar _ => match seen with [] => zadd_all [] (map Z.of_nat (seq 0 n)) | _ :: _ => Err end
+      | _ => zadd_all seen (map fst (zassigns n s))
+      end
+    else Ok seen.
+
+  Fixpoint zscan (n : nat) (seen : list Z) (sp : list (kind * zspec)) : res (list Z) :=
+    match sp with
+    | [] => Ok seen
+    | (_, s) :: r => rbind (zscan_one n seen s) (fun seen' => zscan n seen' r)
+    end.
+
+  Fixpoint zwrite (tab : table) (k : kind) (asg : list (Z * P)) : res table :=
+    match asg with
+    | [] => Ok tab
+    | (key, p) :: r =>
+        match resolve (length tab) key with
+        | Some m => zwrite (set_nth m (Some (k, p)) tab) k r
+        | None => Err
+        end
+    end.
+
+  Fixpoint zregister (n : nat) (tab : table) (sp : list (kind * zspec)) : res table :=
+    match sp with
+    | [] => Ok tab
+    | (k, s) :: r => rbind (zwrite tab k (zassigns n s)) (fun t => zregister n t r)
+    end.
+
+  Definition zvalidate_table (n : nat) (sp : list (kind * zspec)) : res table :=
+    rbind (zscan n [] sp) (fun _ => zregister n (repeat None n) sp).
+
+  (* validate_constraints(..., n_const = n, order = order) *)
+  Definition zvalidate (n : nat) (sp : list (kind * zspec)) (order : nat) : res (option (kind * P)) :=
+    rbind (zvalidate_table n sp) (fun t => if order <? n then Ok (nth order t None) else Err).
+
+  Definition zkeywords (f : kind -> zspec) : list (kind * zspec) := map (fun k => (k, f k)) all_kinds.
+
   (* ------------------------------------------------------------------ dispatch and loops *)
   Section Loops.
-    (* M: factor matrices.  op k p: the operator selected by proximal_operator for constraint k, parameter p. *)
-    Context {M : Type} (dM : M) (op : kind -> P -> M -> M).
+    (* M: factor matrices.  op k p: the operator selected by proximal_operator for constraint k, parameter p.
+       val order: what validate_constraints returns for the keyword values of this call and this `order`
+       (the same keyword values are handed to every call; instantiated with `zvalidate truthy n sp`). *)
+    Context {M : Type} (dM : M) (op : kind -> P -> M -> M) (val : nat -> res (option (kind * P))).
 
     Definition prox_of (c : option (kind * P)) (x : M) : M :=
       match c with None => x | Some (k, p) => op k p x end.
 
     (* proximal_operator(tensor, **specs, n_const=n, order=order) *)
-    Definition proximal_operator (n : nat) (sp : list (kind * spec)) (order : nat) (x : M) : res M :=
-      rbind (validate n sp order) (fun c => Ok (prox_of c x)).
+    Definition proximal_operator (order : nat) (x : M) : res M :=
+      rbind (val order) (fun c => Ok (prox_of c x)).
 
     (* admm: split x dual = transpose(x_split) (the regularised least-squares solve),
        conv = the residual test (any boolean function of the iteration and the iterates). *)
@@ -160,15 +248,15 @@ Section Spec.
     | IComputed (raw : list M)
     | IUser (fs : list M).
 
-    Fixpoint prox_all (n : nat) (sp : list (kind * spec)) (i : nat) (fs : list M) : res (list M) :=
+    Fixpoint prox_all (i : nat) (fs : list M) : res (list M) :=
       match fs with
       | [] => Ok []
-      | f :: r => rbind (proximal_operator n sp i f) (fun f' => rbind (prox_all n sp (S i) r) (fun r' => Ok (f' :: r')))
+      | f :: r => rbind (proximal_operator i f) (fun f' => rbind (prox_all (S i) r) (fun r' => Ok (f' :: r')))
       end.
 
-    Definition initialize (n : nat) (sp : list (kind * spec)) (i0 : init) : res (list M) :=
+    Definition initialize (i0 : init) : res (list M) :=
       match i0 with
-      | IComputed raw => prox_all n sp 0 raw
+      | IComputed raw => prox_all 0 raw
       | IUser fs => Ok fs
       end.
 
@@ -185,38 +273,40 @@ Section Spec.
       e_stop : nat -> list M -> list M -> bool      (* outer iteration, factors, duals: outer stopping rule *)
     }.
 
-    Definition update_mode (E : env) (n : nat) (sp : list (kind * spec)) (inner it : nat)
+    Definition update_mode (E : env) (inner it : nat)
                (st : list M * list M) (mode : nat) : res (list M * list M) :=
       let '(fs, duals) := st in
-      rbind (admm inner (e_split E fs mode) (e_conv E it mode) (proximal_operator n sp mode)
+      rbind (admm inner (e_split E fs mode) (e_conv E it mode) (proximal_operator mode)
                   (nth mode fs dM) (nth mode duals dM))
             (fun r => let '(x, _, d) := r in Ok (set_nth mode x fs, set_nth mode d duals)).
 
-    Fixpoint sweep (E : env) n sp inner it (st : list M * list M) (modes : list nat) : res (list M * list M) :=
+    Fixpoint sweep (E : env) inner it (st : list M * list M) (modes : list nat) : res (list M * list M) :=
       match modes with
       | [] => Ok st
-      | m :: r => rbind (update_mode E n sp inner it st m) (fun st' => sweep E n sp inner it st' r)
+      | m :: r => rbind (update_mode E inner it st m) (fun st' => sweep E inner it st' r)
       end.
 
-    Fixpoint outer_loop (E : env) n sp inner (fuel it : nat) (modes : list nat) (st : list M * list M)
+    Fixpoint outer_loop (E : env) inner (fuel it : nat) (modes : list nat) (st : list M * list M)
       : res (list M * list M) :=
       match fuel with
       | 0 => Ok st
       | S f =>
-          rbind (sweep E n sp inner it st modes) (fun st' =>
-          if e_stop E it (fst st') (snd st') then Ok st' else outer_loop E n sp inner f (S it) modes st')
+          rbind (sweep E inner it st modes) (fun st' =>
+          if e_stop E it (fst st') (snd st') then Ok st' else outer_loop E inner f (S it) modes st')
       end.
 
-    (* constrained_parafac: validate first (raises on a double constraint), initialise, iterate, return the factors *)
-    Definition constrained_cp (E : env) (n : nat) (sp : list (kind * spec)) (i0 : init) (fixed : list nat)
+    (* constrained_parafac on an order-n tensor: validate first (order = 0; raises on a double constraint),
+       initialise, iterate, return the factors *)
+    Definition constrained_cp (E : env) (n : nat) (i0 : init) (fixed : list nat)
                (n_outer n_inner : nat) (zero : M) : res (list M) :=
-      rbind (validate n sp 0) (fun _ =>
-      rbind (initialize n sp i0) (fun fs =>
-      rbind (outer_loop E n sp n_inner n_outer 0 (modes_list n fixed) (fs, map (fun _ => zero) fs))
+      rbind (val 0) (fun _ =>
+      rbind (initialize i0) (fun fs =>
+      rbind (outer_loop E n_inner n_outer 0 (modes_list n fixed) (fs, map (fun _ => zero) fs))
             (fun st => Ok (fst st)))).
   End Loops.
 End Spec.
 
 Arguments SNone {P}. Arguments SScalar {P}. Arguments SList {P}. Arguments SDict {P}.
+Arguments ZNone {P}. Arguments ZScalar {P}. Arguments ZList {P}. Arguments ZDict {P}.
 Arguments IComputed {M}. Arguments IUser {M}.
 Arguments mkEnv {M}.
